@@ -20,6 +20,24 @@ for tc in ET.parse(xml).getroot().iter("testcase"):
         passed.add(f"{tc.get('classname')}::{tc.get('name')}")
 os.remove(xml)
 missing = sorted(want - passed)
+if missing:
+    # de-flake (the box may be heavily loaded): re-run the missing tests once, serially
+    ids = []
+    for m in missing:
+        cls, name = m.split("::", 1)
+        ids.append(cls.replace(".", "/") + ".py::" + name)
+    fd, xml2 = tempfile.mkstemp(suffix=".xml")
+    os.close(fd)
+    subprocess.run(["/venv/bin/python", "-m", "pytest", "-q", "-p", "no:cacheprovider", "--timeout=900", f"--junitxml={xml2}"] + ids,
+                   cwd=repo, env=env, capture_output=True, text=True)
+    try:
+        for tc in ET.parse(xml2).getroot().iter("testcase"):
+            if not any(c.tag in ("failure", "error", "skipped") for c in tc):
+                passed.add(f"{tc.get('classname')}::{tc.get('name')}")
+    except Exception:
+        pass
+    os.remove(xml2)
+    missing = sorted(want - passed)
 print(f"baseline on {repo}: {len(want & passed)}/{len(want)} stable tests pass; extra passing: {len(passed - want)}")
 for m in missing:
     print("  NOT PASSING:", m)
